@@ -66,7 +66,7 @@ func c07Gen(rt *rapid.T) c07Case {
 			}
 		}
 	}
-	if rapid.IntRange(0, 3).Draw(rt, "wrap") == 0 {
+	if rapid.IntRange(0, 1).Draw(rt, "wrap") == 0 {
 		c.WrapIn = rapid.IntRange(1, len(c.Reqs)).Draw(rt, "wrapIn")
 	}
 	n := len(c.Reqs)
@@ -158,11 +158,13 @@ func c07Run(tb rapid.TB, c c07Case) {
 		st[i] = &c07State{}
 		rctx[i], rcancel[i] = context.WithCancel(ctx)
 	}
+	startGate := make(chan struct{}) // all callers are released together (so that they meet at the id counter)
 	for i, q := range c.Reqs {
 		i, q := i, q
 		wg.Add(1)
 		go func() {
 			defer wg.Done()
+			<-startGate
 			tag := fmt.Sprintf("r/%d", i)
 			var err error
 			var subs []Subscription
@@ -186,6 +188,7 @@ func c07Run(tb rapid.TB, c c07Case) {
 			mu.Unlock()
 		}()
 	}
+	close(startGate)
 	isReq := func(pk refPacket) bool {
 		return pk.Type == rtPublish || pk.Type == rtSubscribe || pk.Type == rtUnsubscribe
 	}
@@ -204,6 +207,9 @@ func c07Run(tb rapid.TB, c c07Case) {
 		var idx int
 		fmt.Sscanf(name, "r/%d", &idx)
 		st[idx].id = pk.ID
+		if used[pk.ID] {
+			fail("two outstanding requests carry the same packet identifier %d: acknowledgements cannot be routed to the right one", pk.ID)
+		}
 		used[pk.ID] = true
 	}
 	// some callers give up before any answer: their calls return the context's error; whatever the broker
